@@ -71,6 +71,10 @@ pub struct ReplyShape {
     /// error when it hits it, output produced so far has already been sent)
     #[serde(default)]
     pub partial_fields: u32,
+    /// every field of this reply has a key of its own (field-name vocabularies grow over a
+    /// long connection)
+    #[serde(default)]
+    pub distinct_keys: bool,
 }
 
 #[derive(Clone, Debug, PartialEq, Eq, Serialize, Deserialize)]
@@ -217,6 +221,9 @@ pub struct Picture {
     /// a forced error is reported after the `size:` line has already been printed
     #[serde(default)]
     pub header_before_error: bool,
+    /// the optional `type:` line is only sent with the chunk at offset 0
+    #[serde(default)]
+    pub mime_only_first_chunk: bool,
 }
 
 #[derive(Clone, Debug, PartialEq, Eq, Serialize, Deserialize)]
@@ -234,6 +241,8 @@ pub enum Consumer {
     Drain,
     /// drop the receiver at this time (the API allows it)
     DropAt(u64),
+    /// keep the receiver but do not poll it before this time (a backlog builds up)
+    StartAt(u64),
 }
 
 #[derive(Clone, Debug, PartialEq, Eq, Serialize, Deserialize)]
@@ -257,6 +266,9 @@ pub struct Plan {
     /// the only handles)
     #[serde(default = "yes")]
     pub keep_main_handle: bool,
+    /// run with a TRACE-level tracing subscriber installed (evaluates the logging expressions)
+    #[serde(default)]
+    pub tracing: bool,
 }
 
 fn yes() -> bool {
@@ -280,6 +292,7 @@ impl Plan {
             consumer: Consumer::Drain,
             probe_request: true,
             keep_main_handle: true,
+            tracing: false,
         }
     }
 
